@@ -406,6 +406,10 @@ func init() {
 	})
 
 	// ---- os ----
+	reg("os.NewFile", func(r *Run, _ *frame, _ *ssa.Function, args []Value) Value { return Poison{"os.NewFile"} })
+	reg("syscall.Getrlimit", func(r *Run, _ *frame, _ *ssa.Function, args []Value) Value {
+		return Iface{T: r.E.lookupType("syscall", "Errno"), V: smt.Const(64, 22)}
+	})
 	reg("os.Getpid", func(r *Run, _ *frame, _ *ssa.Function, args []Value) Value {
 		if v, ok := r.stubState["pid"]; ok {
 			return v.(*smt.Term)
@@ -525,6 +529,7 @@ func (r *Run) timeNow() Value {
 			}
 		}
 		r.lastTime = [2]*smt.Term{sec, nsec}
+		r.clockLog = append(r.clockLog, [2]*smt.Term{sec, nsec})
 	} else {
 		sec = smt.Const(64, base)
 		nsec = smt.Const(32, 0)
